@@ -286,10 +286,10 @@ func c32Engine() *Engine {
 // ---- C24 ----
 
 type bar struct {
-	T                      int64 // unix seconds
-	O, H, L, C             float32
-	V                      int32
-	id                     int64
+	T          int64 // unix seconds
+	O, H, L, C float32
+	V          int32
+	id         int64
 }
 
 func ohlcvBucket(sym, tf string) *Bucket {
